@@ -593,6 +593,31 @@ def run(chk):
                    "unless another list of candidates is requested")
     chk.floor("C09-D10.keep", nkeep, 1, "erase sites in clearTesnors")
 
+    # ------------------------------------------------------------------ D13 the flags of a tensor record are rebuilt from all delivered samples
+    chk.rule("C09-D13.scan", "wherever the delivered-sample flags of a tensor record are (re)built from the store of waiting samples - when a tensor is registered and after a grid is read - "
+                             "the loop over the store visits every sample: it contains no break / return, so a tensor that already holds several samples is not asked for them again")
+    nscan = 0
+    for f in db.all_functions(["SparseGrids/tsgDConstructGridGlobal.cpp", "SparseGrids/tsgDConstructGridGlobal.hpp"]):
+        if f.cls != "TasGrid::DynamicConstructorDataGlobal" or f.d.get("islambda"):
+            continue
+        for lp in f.walk():
+            if lp.get("k") != "CXXForRangeStmt" or lp.get("range") is None:
+                continue
+            rng = strip(lp["range"])
+            if rng is None or rng.get("k") != "MemberExpr" or short(rng.get("field") or "") != "data":
+                continue
+            body = lp.get("body")
+            marks = [q for q in walk(body) if q.get("k") in ("BinaryOperator", "CXXOperatorCallExpr") and q.get("op") == "=" and "loaded[" in txt(strip([c for c in q["c"] if isinstance(c, dict)][-2]))
+                     and txt(strip([c for c in q["c"] if isinstance(c, dict)][-1])) == "true"] if body is not None else []
+            if not marks:
+                continue
+            nscan += 1
+            chk.saw(f)
+            exits = [q for q in walk(body, into_lambda=False) if q.get("k") in ("BreakStmt", "ReturnStmt", "GotoStmt")]
+            chk.ob("C09-D13.scan", f.key, "scan of the waiting samples that marks the flags @%d" % lp.get("l", 0), not exits, f.loc(lp),
+                   "" if not exits else "the scan ends at line %d after the first hit: further samples of the same tensor stay unmarked and are requested again" % exits[0].get("l", 0))
+    chk.floor("C09-D13.scan", nscan, 2, "flag-building scans of the sample store")
+
     # ------------------------------------------------------------------ D12 samples that wait in the construction data keep their values in a copy
     chk.rule("C09-D12.restrict", "a grid copied in the middle of a construction with a subset of its outputs keeps the waiting samples with the values of exactly these outputs: every copy "
                                  "constructor restricts the construction data with the range it copies, and restrictData keeps the entries [ibegin, iend) of every sample "
